@@ -1,3 +1,593 @@
-(* XmiProofs.v — theorems about the XMI writer model and the denotation (work in progress). *)
-From Cassis Require Import Base Offsets.
+(* XmiProofs.v — theorems about the XMI writer model (Xmi.v) and the denotation of documents (XmiDoc.v).
+   Decomposition of DESIGN.md section 4.4: per feature kind `decode (encode v) = norm v` (enc_dec_feature_xmi), then the
+   element, then the document; closedness of the written document from the boolean premises wf_xmib.
+   Float printing / parsing are Section parameters with the contract flt_rt / flt_tok. *)
+From Coq Require Import Ascii ZifyBool.
+From Cassis Require Import Base Offsets OffsetsProofs.
 From Cassis Require Import Heap Schema Canon Lex LexProofs Reach XmiDoc Xmi.
+Open Scope Z_scope.
+
+(* ---- generic ---- *)
+Lemma mapM_ok_map {A B} (f : A -> res B) (g : A -> B) l :
+  (forall x, In x l -> f x = Ok (g x)) -> mapM f l = Ok (map g l).
+Proof.
+  induction l as [|x r IH]; intros H; [reflexivity|].
+  cbn [mapM map]. rewrite (H x (or_introl eq_refl)). cbn [bind]. rewrite IH; [reflexivity|].
+  intros y Hy. apply H. right. exact Hy.
+Qed.
+Lemma mapM_ext_in {A B} (f g : A -> res B) l : (forall x, In x l -> f x = g x) -> mapM f l = mapM g l.
+Proof.
+  induction l as [|x r IH]; intros H; [reflexivity|].
+  cbn [mapM]. rewrite (H x (or_introl eq_refl)). destruct (g x); cbn [bind]; try reflexivity.
+  rewrite IH; [reflexivity|]. intros y Hy. apply H. right. exact Hy.
+Qed.
+Lemma mapM_inv {A B} (f : A -> res B) l ys : mapM f l = Ok ys -> Forall2 (fun x y => f x = Ok y) l ys.
+Proof.
+  revert ys. induction l as [|x r IH]; intros ys H; cbn [mapM] in H.
+  - injection H as <-. constructor.
+  - destruct (f x) eqn:E; cbn [bind] in H; try discriminate.
+    destruct (mapM f r) eqn:E2; cbn [bind] in H; try discriminate.
+    injection H as <-. constructor; [exact E|]. apply IH. reflexivity.
+Qed.
+Lemma forallb_In {A} (p : A -> bool) l x : forallb p l = true -> In x l -> p x = true.
+Proof. intros H Hi. rewrite forallb_forall in H. apply H. exact Hi. Qed.
+
+(* ---- tokens ---- *)
+Lemma mapM_tokens {B} (dec : string -> res B) ts :
+  Forall tok_ok ts -> mapM dec (split_ws (join ts)) = mapM dec ts.
+Proof. intros H. rewrite split_join by exact H. reflexivity. Qed.
+
+Section Flt.
+Variable fmt_flt : flt -> string.
+Variable parse_flt : string -> option flt.
+Hypothesis flt_rt : forall x, parse_flt (fmt_flt x) = Some x.
+Hypothesis flt_tok : forall x, tok_ok (fmt_flt x).
+
+(* the reading of one feature as a function of what the element holds under the feature's name *)
+Definition dec_coll' (k : fkind) (oa : option string) (kids : list string) : res (option (list cval)) :=
+  match k with
+  | FStrColl =>
+    match kids with
+    | [] => match oa with
+            | None => Ok None
+            | Some a => if String.eqb a "" then Ok (Some []) else Err EValue
+            end
+    | l => Ok (Some (dec_strs l))
+    end
+  | FTokColl p => match oa with None => Ok None | Some a => do l <- mapM (dec_prim parse_flt p) (split_ws a) ;; Ok (Some l) end
+  | FBytes => match oa with
+              | None => Ok None
+              | Some a => match parse_hex a with Some l => Ok (Some (map CInt l)) | None => Err EValue end
+              end
+  | FIdColl => match oa with None => Ok None | Some a => do l <- mapM dec_id (split_ws a) ;; Ok (Some l) end
+  | _ => Err EValue
+  end.
+Lemma dec_coll_eq k e n : dec_coll parse_flt k e n = dec_coll' k (xattr e n) (xkids e n).
+Proof. unfold dec_coll, dec_coll'. destruct k; try reflexivity. destruct (xkids e n); reflexivity. Qed.
+Definition dec_feature' (s : schema) (conv : Z -> Z) (is_ann : bool) (fd : fdecl) (oa : option string) (kids : list string) : res cval :=
+  let n := fd_xname fd in
+  match fkind_of s fd with
+  | FPrim k =>
+    match oa with
+    | None => Ok CNull
+    | Some a =>
+      do v <- dec_prim parse_flt k a ;;
+      if is_ann && (String.eqb n "begin" || String.eqb n "end")
+      then Ok (match v with CInt z => CInt (conv z) | _ => v end) else Ok v
+    end
+  | FRef => match oa with None => Ok CNull | Some a => dec_id a end
+  | k => do o <- dec_coll' k oa kids ;; Ok (match o with Some l => CColl (fd_range fd) l | None => CNull end)
+  end.
+Lemma dec_feature_eq s conv b e fd :
+  dec_feature parse_flt s conv b e fd = dec_feature' s conv b fd (xattr e (fd_xname fd)) (xkids e (fd_xname fd)).
+Proof. unfold dec_feature, dec_feature'. destruct (fkind_of s fd); try reflexivity; rewrite dec_coll_eq; reflexivity. Qed.
+
+(* ---- element tokens ---- *)
+Lemma dec_toks {A} (tok : A -> string) (mk : A -> cval) k l :
+  (forall x, In x l -> tok_ok (tok x)) -> (forall x, In x l -> dec_prim parse_flt k (tok x) = Ok (mk x)) ->
+  mapM (dec_prim parse_flt k) (split_ws (join (map tok l))) = Ok (map mk l).
+Proof.
+  intros Ht Hd. rewrite mapM_tokens.
+  - rewrite <- (map_map tok (fun t => t)) at 1. rewrite map_id.
+    transitivity (mapM (fun x => dec_prim parse_flt k (tok x)) l).
+    + clear. induction l as [|x r IH]; [reflexivity|]. cbn [map mapM]. rewrite IH. reflexivity.
+    + apply mapM_ok_map. exact Hd.
+  - apply Forall_forall. intros t Hi. apply in_map_iff in Hi. destruct Hi as [x [<- Hx]]. apply Ht. exact Hx.
+Qed.
+Lemma dec_prim_int z : dec_prim parse_flt PInt (z2s z) = Ok (CInt z).
+Proof. unfold dec_prim. rewrite s2z_z2s. reflexivity. Qed.
+Lemma dec_prim_bool b : dec_prim parse_flt PBool (b2s b) = Ok (CBool b).
+Proof. unfold dec_prim. rewrite s2b_b2s. reflexivity. Qed.
+Lemma dec_prim_flt x : dec_prim parse_flt PFlt (fmt_flt x) = Ok (CFlt x).
+Proof. unfold dec_prim. rewrite flt_rt. reflexivity. Qed.
+Lemma dec_id_z2s j : j <> 0 -> dec_id (z2s j) = Ok (CRef j).
+Proof. intros H. unfold dec_id. rewrite s2z_z2s. destruct j; try reflexivity. contradiction. Qed.
+Lemma dec_ids_toks {A} (tok : A -> string) (mk : A -> cval) l :
+  (forall x, In x l -> tok_ok (tok x)) -> (forall x, In x l -> dec_id (tok x) = Ok (mk x)) ->
+  mapM dec_id (split_ws (join (map tok l))) = Ok (map mk l).
+Proof.
+  intros Ht Hd. rewrite mapM_tokens.
+  - transitivity (mapM (fun x => dec_id (tok x)) l).
+    + clear. induction l as [|x r IH]; [reflexivity|]. cbn [map mapM]. rewrite IH. reflexivity.
+    + apply mapM_ok_map. exact Hd.
+  - apply Forall_forall. intros t Hi. apply in_map_iff in Hi. destruct Hi as [x [<- Hx]]. apply Ht. exact Hx.
+Qed.
+
+(* ---- contributions of one feature ---- *)
+Definition attr_of (n : string) (ct : contrib) : option string := alookup n (fst ct).
+Definition kids_of (n : string) (ct : contrib) : list string :=
+  map snd (filter (fun p => String.eqb (fst p) n) (snd ct)).
+Lemma attr_of_attr n a : attr_of n (c_attr n a) = Some a.
+Proof. unfold attr_of, c_attr. cbn [fst alookup]. rewrite String.eqb_refl. reflexivity. Qed.
+Lemma kids_of_attr n a : kids_of n (c_attr n a) = [].
+Proof. reflexivity. Qed.
+Lemma kids_of_kids n ts : kids_of n (c_kids n ts) = ts.
+Proof.
+  unfold kids_of, c_kids. cbn [snd]. induction ts as [|t r IH]; [reflexivity|].
+  cbn [map filter fst]. rewrite String.eqb_refl. cbn [map snd]. rewrite IH. reflexivity.
+Qed.
+Lemma attr_of_kids n ts : attr_of n (c_kids n ts) = None.
+Proof. reflexivity. Qed.
+
+(* the canonical value of a slot, as canon_feature computes it *)
+Definition canon_val (s : schema) (c : cas) (fd : fdecl) (v : val) : res cval :=
+  if inline_fd fd then
+    match v with
+    | VNone => Ok CNull
+    | _ =>
+      if is_array_name (fd_range fd) then
+        do ev <- elements_val (c_heap c) v ;;
+        match ev with
+        | VList l => do l' <- mapM (cv c) l ;; Ok (CColl (fd_range fd) l')
+        | _ => Ok (CColl (fd_range fd) [])
+        end
+      else
+        do hs <- list_heads (S (List.length (c_heap c))) s (c_heap c) [] v ;;
+        do l' <- mapM (cv c) hs ;; Ok (CColl (fd_range fd) l')
+    end
+  else cv c v.
+Lemma canon_feature_eq s c f fd :
+  canon_feature s c f fd = do x <- canon_val s c fd (slot f (fd_name fd)) ;; Ok (fd_xname fd, x).
+Proof. reflexivity. Qed.
+
+Lemma collect_heads s h : forall fuel seen v l, collect_list fuel s h seen v = Ok l -> list_heads fuel s h seen v = Ok l.
+Proof.
+  induction fuel as [|k IH]; intros seen v l H; cbn [collect_list] in H; [discriminate|].
+  cbn [list_heads]. destruct v; try exact H.
+  destruct (hget h o) as [f|]; [|exact H].
+  destruct (has_feat s (o_type f) "head"); cbn [andb]; [|exact H].
+  destruct (memN o seen); cbn [negb]; [discriminate|].
+  destruct (collect_list k s h (o :: seen) (slot f "tail")) eqn:E; cbn [bind] in H; try discriminate.
+  rewrite (IH _ _ _ E). exact H.
+Qed.
+
+(* ---- elements of collections ---- *)
+Definition st (v : val) : string := match v with VStr x => x | _ => "" end.
+Definition cvs (v : val) : cval := match v with VStr x => CStr x | _ => CNull end.
+Lemma str_elems c l : forallb str_or_none l = true ->
+  mapM str_text l = Ok (map st l) /\ mapM (cv c) l = Ok (map cvs l) /\ dec_strs (map st l) = map norm_str (map cvs l).
+Proof.
+  intros H. repeat split.
+  - apply mapM_ok_map. intros x Hx. pose proof (forallb_In _ _ _ H Hx) as P. destruct x; try discriminate; reflexivity.
+  - apply mapM_ok_map. intros x Hx. pose proof (forallb_In _ _ _ H Hx) as P. destruct x; try discriminate; reflexivity.
+  - unfold dec_strs. rewrite !map_map. apply map_ext_in. intros x Hx.
+    pose proof (forallb_In _ _ _ H Hx) as P. destruct x; try discriminate; cbn [st cvs norm_str]; try reflexivity.
+Qed.
+
+Definition ref_tok (h : heap) (v : val) : string :=
+  match v with
+  | VRef o => match hget h o with Some f => match o_id f with Some j => z2s j | None => "None" end | None => "" end
+  | _ => "0"
+  end.
+Definition ref_cv (h : heap) (v : val) : cval :=
+  match v with
+  | VRef o => match hget h o with Some f => match o_id f with Some j => CRef j | None => CNull end | None => CNull end
+  | _ => CNull
+  end.
+Lemma memZ_In z l : memZ z l = true <-> In z l.
+Proof.
+  induction l as [|x r IH]; cbn [memZ In]; [split; [discriminate|contradiction]|].
+  rewrite orb_true_iff, IH, Z.eqb_eq. split; intros [H|H]; auto.
+Qed.
+Lemma ref_elem c ids v : memZ 0 ids = false -> ref_okb (c_heap c) ids v = true ->
+  ser_ref (c_heap c) v = Ok (ref_tok (c_heap c) v) /\ cv c v = Ok (ref_cv (c_heap c) v)
+  /\ tok_ok (ref_tok (c_heap c) v) /\ dec_id (ref_tok (c_heap c) v) = Ok (ref_cv (c_heap c) v).
+Proof.
+  intros H0 H. destruct v; try discriminate.
+  - repeat split; try reflexivity; discriminate.
+  - cbn [ref_okb] in H. cbn [ser_ref cv ref_tok ref_cv]. unfold id_str, ref_id.
+    destruct (hget (c_heap c) o) as [f|]; [|discriminate].
+    destruct (o_id f) as [j|]; [|discriminate].
+    assert (j <> 0) as Hj by (intros ->; rewrite H in H0; discriminate).
+    cbv beta iota.
+    repeat split; try reflexivity; try apply z2s_tok. apply dec_id_z2s. exact Hj.
+Qed.
+Lemma ref_elems c ids l : memZ 0 ids = false -> forallb (ref_okb (c_heap c) ids) l = true ->
+  mapM (ser_ref (c_heap c)) l = Ok (map (ref_tok (c_heap c)) l) /\ mapM (cv c) l = Ok (map (ref_cv (c_heap c)) l)
+  /\ mapM dec_id (split_ws (join (map (ref_tok (c_heap c)) l))) = Ok (map (ref_cv (c_heap c)) l).
+Proof.
+  intros H0 H. repeat split.
+  - apply mapM_ok_map. intros x Hx. apply (ref_elem c ids x H0 (forallb_In _ _ _ H Hx)).
+  - apply mapM_ok_map. intros x Hx. apply (ref_elem c ids x H0 (forallb_In _ _ _ H Hx)).
+  - apply dec_ids_toks; intros x Hx; apply (ref_elem c ids x H0 (forallb_In _ _ _ H Hx)).
+Qed.
+
+Definition prim_tok (v : val) : string :=
+  match v with VInt z => z2s z | VBool b => b2s b | VFlt x => fmt_flt x | _ => "" end.
+Definition prim_cv (v : val) : cval :=
+  match v with VInt z => CInt z | VBool b => CBool b | VFlt x => CFlt x | _ => CNull end.
+Lemma toks_generic c (P : val -> bool) (enc : val -> res string) k l :
+  (forall x, P x = true -> enc x = Ok (prim_tok x) /\ tok_ok (prim_tok x)
+                           /\ dec_prim parse_flt k (prim_tok x) = Ok (prim_cv x) /\ cv c x = Ok (prim_cv x)) ->
+  forallb P l = true ->
+  mapM enc l = Ok (map prim_tok l)
+  /\ mapM (dec_prim parse_flt k) (split_ws (join (map prim_tok l))) = Ok (map prim_cv l)
+  /\ mapM (cv c) l = Ok (map prim_cv l).
+Proof.
+  intros HP H. repeat split.
+  - apply mapM_ok_map. intros x Hx. apply (HP x (forallb_In _ _ _ H Hx)).
+  - apply dec_toks; intros x Hx; apply (HP x (forallb_In _ _ _ H Hx)).
+  - apply mapM_ok_map. intros x Hx. apply (HP x (forallb_In _ _ _ H Hx)).
+Qed.
+Definition is_vint (v : val) : bool := match v with VInt _ => true | _ => false end.
+Definition is_vflt (v : val) : bool := match v with VFlt _ => true | _ => false end.
+Definition is_vbool (v : val) : bool := match v with VBool _ => true | _ => false end.
+Definition is_vbyte (v : val) : bool := match v with VInt x => (0 <=? x) && (x <? 256) | _ => false end.
+Lemma bytes_rt c l : forallb is_vbyte l = true ->
+  exists xs, mapM (fun v => match v with VInt x => Ok (hex_byte x) | _ => Err EType end) l = Ok (map hex_byte xs)
+             /\ parse_hex (concat_s (map hex_byte xs)) = Some xs /\ mapM (cv c) l = Ok (map CInt xs).
+Proof.
+  intros H. exists (map (fun v => match v with VInt x => x | _ => 0 end) l). repeat split.
+  - rewrite map_map. apply mapM_ok_map. intros x Hx. pose proof (forallb_In _ _ _ H Hx) as P.
+    destruct x; try discriminate. reflexivity.
+  - apply hex_rt. apply Forall_forall. intros z Hz. apply in_map_iff in Hz. destruct Hz as [v [<- Hv]].
+    pose proof (forallb_In _ _ _ H Hv) as P. destruct v; try discriminate. cbn [is_vbyte] in P. lia.
+  - rewrite map_map. apply mapM_ok_map. intros x Hx. pose proof (forallb_In _ _ _ H Hx) as P.
+    destruct x; try discriminate. reflexivity.
+Qed.
+
+Section Val.
+Variables (s : schema) (c : cas) (ids : list Z).
+Hypothesis H0 : memZ 0 ids = false.
+Hypothesis Hsofa0 : forall vn so, sofa_of_view c vn = Some so -> s_xid so <> 0.
+
+Definition goal_val (fd : fdecl) (v : val) (ct : contrib) (conv : Z -> Z) : Prop :=
+  dec_feature' s conv false fd (attr_of (fd_xname fd) ct) (kids_of (fd_xname fd) ct)
+  = do x <- canon_val s c fd v ;; Ok (norm_feat s fd x).
+
+Lemma val_scalar fd v ct conv :
+  inline_fd fd = false ->
+  match wbranch s fd, fkind_of s fd with
+  | WSofa, FRef | WRef, FRef | WBool, FPrim PBool | WFlt, FPrim PFlt | WPrim, FPrim PInt | WPrim, FPrim PStr => True
+  | _, _ => False end ->
+  value_okb s c ids fd v = true ->
+  enc_value fmt_flt s c (fd_xname fd) (fd_range fd) (wbranch s fd) v = Ok ct ->
+  goal_val fd v ct conv.
+Proof.
+  intros I HA HV HE. unfold goal_val, dec_feature', canon_val, norm_feat, value_okb in *. rewrite I.
+  destruct (wbranch s fd) eqn:W; destruct (fkind_of s fd) as [k| | | | |] eqn:K; try contradiction;
+    try (destruct k; try contradiction); cbn [enc_value] in HE.
+  - (* sofa *)
+    destruct v; try discriminate. destruct (sofa_of_view c n) as [so|] eqn:S; [|discriminate].
+    injection HE as <-. rewrite attr_of_attr. cbn [cv]. rewrite S. cbn [bind].
+    rewrite dec_id_z2s by (apply (Hsofa0 n so S)). reflexivity.
+  - (* bool *)
+    destruct v; try discriminate. injection HE as <-. rewrite attr_of_attr, dec_prim_bool. reflexivity.
+  - (* float *)
+    destruct v; try discriminate. injection HE as <-. rewrite attr_of_attr, dec_prim_flt. reflexivity.
+  - (* int *)
+    destruct v; try discriminate. injection HE as <-. rewrite attr_of_attr, dec_prim_int. reflexivity.
+  - (* string *)
+    destruct v; try discriminate. injection HE as <-. rewrite attr_of_attr. reflexivity.
+  - (* reference *)
+    destruct v; try discriminate.
+    destruct (ref_elem c ids (VRef o) H0 HV) as [E1 [E2 [_ E4]]].
+    cbn [ser_ref] in E1. rewrite E1 in HE. cbn [bind] in HE. injection HE as <-.
+    rewrite attr_of_attr. rewrite E2. cbn [bind]. exact E4.
+Qed.
+
+Lemma elements_val_ref h v ev : elements_val h v = Ok ev -> exists a, v = VRef a.
+Proof. destruct v; try discriminate. eauto. Qed.
+Lemma list_elems_heads r v l : list_elems_of s (c_heap c) r v = Ok l ->
+  is_list_name r = true /\ list_heads (S (List.length (c_heap c))) s (c_heap c) [] v = Ok l.
+Proof.
+  unfold list_elems_of, list_elems. destruct (is_list_name r); [|discriminate].
+  intros H. split; [reflexivity|]. apply collect_heads. exact H.
+Qed.
+
+(* string arrays and string lists *)
+Lemma val_strarr fd v ct conv :
+  inline_fd fd = true -> wbranch s fd = WStrArr -> fkind_of s fd = FStrColl -> fd_range fd = T_STRING_ARRAY ->
+  value_okb s c ids fd v = true ->
+  enc_value fmt_flt s c (fd_xname fd) (fd_range fd) (wbranch s fd) v = Ok ct -> goal_val fd v ct conv.
+Proof.
+  intros I W K R HV HE. unfold goal_val, dec_feature', canon_val, norm_feat, value_okb in *. rewrite I, K. rewrite W in *.
+  cbn [enc_value] in HE.
+  destruct (elements_val (c_heap c) v) as [ev| |] eqn:EV; try discriminate. destruct ev; try discriminate.
+  destruct (elements_val_ref _ _ _ EV) as [a ->]. cbn [bind] in *.
+  rewrite R at 1. change (is_array_name T_STRING_ARRAY) with true. cbv iota.
+  destruct (str_elems c l HV) as [E1 [E2 E3]]. rewrite E2. cbn [bind].
+  destruct l as [|x l'].
+  - injection HE as <-. rewrite attr_of_attr, kids_of_attr. reflexivity.
+  - rewrite E1 in HE. cbn [bind] in HE. injection HE as <-.
+    rewrite attr_of_kids, kids_of_kids. cbn [map dec_coll' bind]. f_equal. f_equal. exact E3.
+Qed.
+Lemma val_strlist fd v ct conv :
+  inline_fd fd = true -> wbranch s fd = WStrList -> fkind_of s fd = FStrColl -> fd_range fd = T_STRING_LIST ->
+  v <> VNone -> value_okb s c ids fd v = true ->
+  enc_value fmt_flt s c (fd_xname fd) (fd_range fd) (wbranch s fd) v = Ok ct -> goal_val fd v ct conv.
+Proof.
+  intros I W K R Hv HV HE. unfold goal_val, dec_feature', canon_val, norm_feat, value_okb in *. rewrite I, K. rewrite W in *.
+  cbn [enc_value] in HE.
+  destruct (list_elems_of s (c_heap c) (fd_range fd) v) as [l| |] eqn:EL; try discriminate.
+  destruct (list_elems_heads _ _ _ EL) as [_ EH]. cbn [bind] in *.
+  assert (forall A (x y : A), match v with VNone => x | _ => y end = y) as Mv by (intros; destruct v; try reflexivity; contradiction).
+  rewrite Mv.
+  rewrite R at 1. change (is_array_name T_STRING_LIST) with false. cbv iota.
+  rewrite EH. cbn [bind].
+  destruct (str_elems c l HV) as [E1 [E2 E3]]. rewrite E2. cbn [bind].
+  destruct l as [|x l'].
+  - injection HE as <-. rewrite attr_of_attr, kids_of_attr. reflexivity.
+  - rewrite E1 in HE. cbn [bind] in HE. injection HE as <-.
+    rewrite attr_of_kids, kids_of_kids. cbn [map dec_coll' bind]. f_equal. f_equal. exact E3.
+Qed.
+
+(* FSArray / FSList *)
+Lemma val_fsarr fd v ct conv :
+  inline_fd fd = true -> wbranch s fd = WFsArr -> fkind_of s fd = FIdColl -> fd_range fd = T_FS_ARRAY ->
+  value_okb s c ids fd v = true ->
+  enc_value fmt_flt s c (fd_xname fd) (fd_range fd) (wbranch s fd) v = Ok ct -> goal_val fd v ct conv.
+Proof.
+  intros I W K R HV HE. unfold goal_val, dec_feature', canon_val, norm_feat, value_okb in *. rewrite I, K. rewrite W in *.
+  cbn [enc_value] in HE.
+  destruct (elements_val (c_heap c) v) as [ev| |] eqn:EV; try discriminate. destruct ev; try discriminate.
+  destruct (elements_val_ref _ _ _ EV) as [a ->]. cbn [bind] in *.
+  rewrite R at 1. change (is_array_name T_FS_ARRAY) with true. cbv iota.
+  destruct (ref_elems c ids l H0 HV) as [E1 [E2 E3]]. rewrite E2. rewrite E1 in HE. cbn [bind] in *.
+  injection HE as <-. rewrite attr_of_attr. cbn [dec_coll']. rewrite E3. reflexivity.
+Qed.
+Lemma val_fslist fd v ct conv :
+  inline_fd fd = true -> wbranch s fd = WFsList -> fkind_of s fd = FIdColl -> fd_range fd = T_FS_LIST ->
+  v <> VNone -> value_okb s c ids fd v = true ->
+  enc_value fmt_flt s c (fd_xname fd) (fd_range fd) (wbranch s fd) v = Ok ct -> goal_val fd v ct conv.
+Proof.
+  intros I W K R Hv HV HE. unfold goal_val, dec_feature', canon_val, norm_feat, value_okb in *. rewrite I, K. rewrite W in *.
+  cbn [enc_value] in HE.
+  destruct (list_elems_of s (c_heap c) (fd_range fd) v) as [l| |] eqn:EL; try discriminate.
+  destruct (list_elems_heads _ _ _ EL) as [_ EH]. cbn [bind] in *.
+  assert (forall A (x y : A), match v with VNone => x | _ => y end = y) as Mv by (intros; destruct v; try reflexivity; contradiction).
+  rewrite Mv.
+  rewrite R at 1. change (is_array_name T_FS_LIST) with false. cbv iota.
+  rewrite EH. cbn [bind].
+  destruct (ref_elems c ids l H0 HV) as [E1 [E2 E3]]. rewrite E2. rewrite E1 in HE. cbn [bind] in *.
+  injection HE as <-. rewrite attr_of_attr. cbn [dec_coll']. rewrite E3. reflexivity.
+Qed.
+
+(* primitive arrays and lists *)
+Lemma forallb_ext_eq {A} (p q : A -> bool) l : (forall x, p x = q x) -> forallb p l = forallb q l.
+Proof. intros H. induction l as [|x r IH]; [reflexivity|]. cbn [forallb]. rewrite H, IH. reflexivity. Qed.
+Lemma int_class x : is_vint x = true ->
+  (match x with VInt z => Ok (z2s z) | VStr t => Ok t | VNone => Ok "None" | _ => Err EType end) = Ok (prim_tok x)
+  /\ tok_ok (prim_tok x) /\ dec_prim parse_flt PInt (prim_tok x) = Ok (prim_cv x) /\ cv c x = Ok (prim_cv x).
+Proof. destruct x; try discriminate. intros _. repeat split; try reflexivity; try apply z2s_tok. apply dec_prim_int. Qed.
+Lemma flt_class x : is_vflt x = true ->
+  (match x with VFlt z => Ok (fmt_flt z) | _ => Err EType end) = Ok (prim_tok x)
+  /\ tok_ok (prim_tok x) /\ dec_prim parse_flt PFlt (prim_tok x) = Ok (prim_cv x) /\ cv c x = Ok (prim_cv x).
+Proof. destruct x; try discriminate. intros _. repeat split; try reflexivity; try apply flt_tok. apply dec_prim_flt. Qed.
+Lemma bool_class x : is_vbool x = true ->
+  (match x with VBool z => Ok (b2s z) | _ => Err EType end) = Ok (prim_tok x)
+  /\ tok_ok (prim_tok x) /\ dec_prim parse_flt PBool (prim_tok x) = Ok (prim_cv x) /\ cv c x = Ok (prim_cv x).
+Proof. destruct x; try discriminate. intros _. repeat split; try reflexivity; try apply b2s_tok. apply dec_prim_bool. Qed.
+
+Definition rt_goal (r : tname) (l : list val) (a : string) : Prop :=
+  exists k l', coll_kind r = Some k /\ dec_coll' k (Some a) [] = Ok (Some l') /\ mapM (cv c) l = Ok l'.
+
+Lemma rt_int r l a : coll_kind r = Some (FTokColl PInt) -> forallb is_vint l = true ->
+  (do ts <- mapM (fun v => match v with VInt x => Ok (z2s x) | VStr t => Ok t | VNone => Ok "None" | _ => Err EType end) l ;; Ok (join ts)) = Ok a ->
+  rt_goal r l a.
+Proof.
+  intros CK H HE. destruct (toks_generic c is_vint _ PInt l int_class H) as [E1 [E2 E3]].
+  rewrite E1 in HE. cbn [bind] in HE. injection HE as <-.
+  exists (FTokColl PInt), (map prim_cv l). repeat split; try assumption. cbn [dec_coll']. rewrite E2. reflexivity.
+Qed.
+Lemma rt_flt r l a : coll_kind r = Some (FTokColl PFlt) -> forallb is_vflt l = true ->
+  (do ts <- mapM (fun v => match v with VFlt x => Ok (fmt_flt x) | _ => Err EType end) l ;; Ok (join ts)) = Ok a ->
+  rt_goal r l a.
+Proof.
+  intros CK H HE. destruct (toks_generic c is_vflt _ PFlt l flt_class H) as [E1 [E2 E3]].
+  rewrite E1 in HE. cbn [bind] in HE. injection HE as <-.
+  exists (FTokColl PFlt), (map prim_cv l). repeat split; try assumption. cbn [dec_coll']. rewrite E2. reflexivity.
+Qed.
+Lemma rt_bool r l a : coll_kind r = Some (FTokColl PBool) -> forallb is_vbool l = true ->
+  (do ts <- mapM (fun v => match v with VBool x => Ok (b2s x) | _ => Err EType end) l ;; Ok (join ts)) = Ok a ->
+  rt_goal r l a.
+Proof.
+  intros CK H HE. destruct (toks_generic c is_vbool _ PBool l bool_class H) as [E1 [E2 E3]].
+  rewrite E1 in HE. cbn [bind] in HE. injection HE as <-.
+  exists (FTokColl PBool), (map prim_cv l). repeat split; try assumption. cbn [dec_coll']. rewrite E2. reflexivity.
+Qed.
+Lemma rt_bytes r l a : coll_kind r = Some FBytes -> forallb is_vbyte l = true ->
+  (do ts <- mapM (fun v => match v with VInt x => Ok (hex_byte x) | _ => Err EType end) l ;; Ok (concat_s ts)) = Ok a ->
+  rt_goal r l a.
+Proof.
+  intros CK H HE. destruct (bytes_rt c l H) as [xs [E1 [E2 E3]]].
+  rewrite E1 in HE. cbn [bind] in HE. injection HE as <-.
+  exists FBytes, (map CInt xs). repeat split; try assumption. cbn [dec_coll']. rewrite E2. reflexivity.
+Qed.
+
+Lemma prim_arr_rt r l a : is_prim_array_name r = true -> r <> T_STRING_ARRAY ->
+  forallb (prim_elem_okb r) l = true -> ser_prim_array fmt_flt r l = Ok a -> rt_goal r l a.
+Proof.
+  intros P NS HV HE. unfold is_prim_array_name in P. apply memb_In in P. cbn [prim_array_names In] in P.
+  destruct P as [<-|[<-|[<-|[<-|[<-|[<-|[<-|[<-|[]]]]]]]]].
+  - apply rt_flt; [reflexivity| |exact HE]. rewrite <- HV. apply forallb_ext_eq. intros x; destruct x; reflexivity.
+  - apply rt_int; [reflexivity| |exact HE]. rewrite <- HV. apply forallb_ext_eq. intros x; destruct x; reflexivity.
+  - apply rt_bool; [reflexivity| |exact HE]. rewrite <- HV. apply forallb_ext_eq. intros x; destruct x; reflexivity.
+  - apply rt_bytes; [reflexivity| |exact HE]. rewrite <- HV. apply forallb_ext_eq. intros x; destruct x; reflexivity.
+  - apply rt_int; [reflexivity| |exact HE]. rewrite <- HV. apply forallb_ext_eq. intros x; destruct x; reflexivity.
+  - apply rt_int; [reflexivity| |exact HE]. rewrite <- HV. apply forallb_ext_eq. intros x; destruct x; reflexivity.
+  - apply rt_flt; [reflexivity| |exact HE]. rewrite <- HV. apply forallb_ext_eq. intros x; destruct x; reflexivity.
+  - contradiction NS. reflexivity.
+Qed.
+
+Lemma prim_list_rt r l a : r = "uima.cas.IntegerList" \/ r = "uima.cas.FloatList" ->
+  forallb (prim_elem_okb r) l = true -> ser_prim_list fmt_flt l = Ok a -> rt_goal r l a.
+Proof.
+  intros [-> | ->] HV HE; unfold ser_prim_list in HE.
+  - assert (forallb is_vint l = true) as H by (rewrite <- HV; apply forallb_ext_eq; intros x; destruct x; reflexivity).
+    destruct (toks_generic c is_vint
+                (fun v => match v with VFlt x => Ok (fmt_flt x) | VInt x => Ok (z2s x) | VStr t => Ok t | VNone => Ok "None"
+                                  | VBool b => Ok (if b then "True" else "False") | _ => Err EType end) PInt l) as [E1 [E2 E3]];
+      [|exact H|].
+    { intros x Hx. destruct x; try discriminate. repeat split; try reflexivity; try apply z2s_tok. apply dec_prim_int. }
+    rewrite E1 in HE. cbn [bind] in HE. injection HE as <-.
+    exists (FTokColl PInt), (map prim_cv l). repeat split; try assumption; try reflexivity. cbn [dec_coll']. rewrite E2. reflexivity.
+  - assert (forallb is_vflt l = true) as H by (rewrite <- HV; apply forallb_ext_eq; intros x; destruct x; reflexivity).
+    destruct (toks_generic c is_vflt
+                (fun v => match v with VFlt x => Ok (fmt_flt x) | VInt x => Ok (z2s x) | VStr t => Ok t | VNone => Ok "None"
+                                  | VBool b => Ok (if b then "True" else "False") | _ => Err EType end) PFlt l) as [E1 [E2 E3]];
+      [|exact H|].
+    { intros x Hx. destruct x; try discriminate. repeat split; try reflexivity; try apply flt_tok. apply dec_prim_flt. }
+    rewrite E1 in HE. cbn [bind] in HE. injection HE as <-.
+    exists (FTokColl PFlt), (map prim_cv l). repeat split; try assumption; try reflexivity. cbn [dec_coll']. rewrite E2. reflexivity.
+Qed.
+
+Lemma fkind_coll fd k : fkind_of s fd = k -> (k = FBytes \/ exists p, k = FTokColl p) -> coll_kind (fd_range fd) = Some k.
+Proof.
+  unfold fkind_of. intros K Hk. destruct (prim_of s (fd_range fd)).
+  - destruct Hk as [->|[p ->]]; discriminate.
+  - destruct (fd_multi fd); [destruct Hk as [->|[p ->]]; discriminate|].
+    destruct (coll_kind (fd_range fd)); [congruence|]. destruct Hk as [->|[p ->]]; discriminate.
+Qed.
+
+Lemma val_primarr fd v ct conv k :
+  inline_fd fd = true -> wbranch s fd = WPrimArr -> fkind_of s fd = k -> (k = FBytes \/ exists p, k = FTokColl p) ->
+  is_prim_array_name (fd_range fd) = true ->
+  value_okb s c ids fd v = true ->
+  enc_value fmt_flt s c (fd_xname fd) (fd_range fd) (wbranch s fd) v = Ok ct -> goal_val fd v ct conv.
+Proof.
+  intros I W K Hk P HV HE. pose proof (fkind_coll fd k K Hk) as CK.
+  unfold goal_val, dec_feature', canon_val, norm_feat, value_okb in *. rewrite I, K. rewrite W in *.
+  cbn [enc_value] in HE.
+  destruct (elements_val (c_heap c) v) as [ev| |] eqn:EV; try discriminate. destruct ev; try discriminate.
+  destruct (elements_val_ref _ _ _ EV) as [a ->]. cbn [bind] in *.
+  assert (is_array_name (fd_range fd) = true) as IA by (unfold is_array_name; rewrite P; reflexivity).
+  rewrite IA.
+  destruct (ser_prim_array fmt_flt (fd_range fd) l) as [at_| |] eqn:SE; try discriminate. cbn [bind] in HE. injection HE as <-.
+  assert (fd_range fd <> T_STRING_ARRAY) as NS.
+  { intros E. rewrite E in CK. destruct Hk as [->|[p ->]]; discriminate. }
+  destruct (prim_arr_rt _ l at_ P NS HV SE) as [k' [l' [CK' [D C]]]].
+  rewrite CK in CK'. injection CK' as <-. rewrite attr_of_attr, kids_of_attr. rewrite C. cbn [bind].
+  assert (dec_coll' k (Some at_) [] = Ok (Some l')) as D' by exact D.
+  destruct Hk as [->|[p ->]]; rewrite D'; reflexivity.
+Qed.
+Lemma val_primlist fd v ct conv p :
+  inline_fd fd = true -> wbranch s fd = WPrimList -> fkind_of s fd = FTokColl p ->
+  is_prim_list_name (fd_range fd) = true -> v <> VNone ->
+  value_okb s c ids fd v = true ->
+  enc_value fmt_flt s c (fd_xname fd) (fd_range fd) (wbranch s fd) v = Ok ct -> goal_val fd v ct conv.
+Proof.
+  intros I W K P Hv HV HE. pose proof (fkind_coll fd _ K (or_intror (ex_intro _ p eq_refl))) as CK.
+  unfold goal_val, dec_feature', canon_val, norm_feat, value_okb in *. rewrite I, K. rewrite W in *.
+  cbn [enc_value] in HE.
+  destruct (list_elems_of s (c_heap c) (fd_range fd) v) as [l| |] eqn:EL; try discriminate.
+  destruct (list_elems_heads _ _ _ EL) as [_ EH]. cbn [bind] in *.
+  assert (forall A (x y : A), match v with VNone => x | _ => y end = y) as Mv by (intros; destruct v; try reflexivity; contradiction).
+  rewrite Mv.
+  assert (fd_range fd = "uima.cas.IntegerList" \/ fd_range fd = "uima.cas.FloatList") as R.
+  { unfold is_prim_list_name in P. apply memb_In in P. cbn [prim_list_names In] in P.
+    destruct P as [E|[E|[E|[]]]]; auto. rewrite <- E in CK. discriminate. }
+  assert (is_array_name (fd_range fd) = false) as IA by (destruct R as [-> | ->]; reflexivity).
+  rewrite IA. rewrite EH. cbn [bind].
+  destruct (ser_prim_list fmt_flt l) as [at_| |] eqn:SE; try discriminate. cbn [bind] in HE. injection HE as <-.
+  destruct (prim_list_rt _ l at_ R HV SE) as [k' [l' [CK' [D C]]]].
+  rewrite CK in CK'. injection CK' as <-. rewrite attr_of_attr, kids_of_attr. rewrite C. cbn [bind].
+  assert (dec_coll' (FTokColl p) (Some at_) [] = Ok (Some l')) as D' by exact D.
+  rewrite D'. reflexivity.
+Qed.
+
+(* every branch of the writer, read back by the format's feature kind: the value up to ""/null in string collections *)
+Lemma enc_dec_value fd v ct conv :
+  kind_agreeb s fd = true -> v <> VNone -> value_okb s c ids fd v = true ->
+  enc_value fmt_flt s c (fd_xname fd) (fd_range fd) (wbranch s fd) v = Ok ct -> goal_val fd v ct conv.
+Proof.
+  intros HA Hv HV HE. unfold kind_agreeb in HA. apply andb_prop in HA. destruct HA as [HI HA].
+  apply eqb_prop in HI.
+  destruct (wbranch s fd) eqn:W; destruct (fkind_of s fd) as [k| |k| | |] eqn:K; try discriminate HA;
+    try (destruct k; try discriminate HA); cbn [is_coll_wkind] in HI; rewrite <- W in HE.
+  - apply val_strarr; auto. apply String.eqb_eq. exact HA.
+  - apply val_strlist; auto. apply String.eqb_eq. exact HA.
+  - apply (val_primarr fd v ct conv (FTokColl PInt)); eauto.
+  - apply (val_primarr fd v ct conv (FTokColl PFlt)); eauto.
+  - apply (val_primarr fd v ct conv (FTokColl PBool)); eauto.
+  - apply (val_primarr fd v ct conv (FTokColl PStr)); eauto.
+  - apply (val_primarr fd v ct conv FBytes); eauto.
+  - apply (val_primlist fd v ct conv PInt); auto.
+  - apply (val_primlist fd v ct conv PFlt); auto.
+  - apply (val_primlist fd v ct conv PBool); auto.
+  - apply (val_primlist fd v ct conv PStr); auto.
+  - apply val_fsarr; auto. apply String.eqb_eq. exact HA.
+  - apply val_fslist; auto. apply String.eqb_eq. exact HA.
+  - apply val_scalar; auto. rewrite W, K. exact I.
+  - apply val_scalar; auto. rewrite W, K. exact I.
+  - apply val_scalar; auto. rewrite W, K. exact I.
+  - apply val_scalar; auto. rewrite W, K. exact I.
+  - apply val_scalar; auto. rewrite W, K. exact I.
+  - apply val_scalar; auto. rewrite W, K. exact I.
+Qed.
+
+(* the offset converter the reader side uses for an element must be the one of the annotation's own sofa *)
+Definition conv_spec (f : fsobj) (conv : Z -> Z) : Prop :=
+  forall vn so, slot f "sofa" = VSofa vn -> sofa_of_view c vn = Some so ->
+    forall z, conv z = match s_text so with Some t => ext2py (mk_conv t) z | None => z end.
+
+Lemma dec_none conv b fd : dec_feature' s conv b fd None [] = Ok CNull.
+Proof. unfold dec_feature'. destruct (fkind_of s fd) as [k| |k| | |]; reflexivity. Qed.
+Lemma norm_null fd : norm_feat s fd CNull = CNull.
+Proof. unfold norm_feat. destruct (fkind_of s fd); reflexivity. Qed.
+Lemma match_not_none {A} (v : val) (x y : A) : v <> VNone -> match v with VNone => x | _ => y end = y.
+Proof. intros H. destruct v; try reflexivity. contradiction. Qed.
+Lemma dec_flag conv b fd oa kids :
+  b && (String.eqb (fd_xname fd) "begin" || String.eqb (fd_xname fd) "end") = false ->
+  dec_feature' s conv b fd oa kids = dec_feature' s conv false fd oa kids.
+Proof. intros H. unfold dec_feature'. rewrite H. reflexivity. Qed.
+
+Theorem enc_dec_feature_xmi tn f fd ct conv :
+  feat_okb s c ids tn f fd = true -> conv_spec f conv ->
+  enc_feature fmt_flt s c tn f fd = Ok ct ->
+  dec_feature' s conv (isa s tn T_ANNOTATION) fd (attr_of (fd_xname fd) ct) (kids_of (fd_xname fd) ct)
+  = do nx <- canon_feature s c f fd ;; Ok (norm_feat s fd (snd nx)).
+Proof.
+  intros HF HC HE. unfold feat_okb in HF. apply andb_prop in HF. destruct HF as [HF HS].
+  apply andb_prop in HF. destruct HF as [HN HA]. apply negb_true_iff in HN.
+  unfold enc_feature in HE. rewrite HN in HE. cbv zeta in HE, HS. rewrite canon_feature_eq.
+  remember (slot f (fd_name fd)) as v0 eqn:SL.
+  destruct (val_eqb v0 VNone) eqn:EV.
+  { assert (v0 = VNone) as -> by (destruct v0; try discriminate; reflexivity).
+    injection HE as <-. cbn [attr_of kids_of c_none fst snd alookup filter map].
+    rewrite dec_none. unfold canon_val. destruct (inline_fd fd); cbn [cv bind snd]; rewrite norm_null; reflexivity. }
+  assert (v0 <> VNone) as Hv by (intros ->; discriminate).
+  rewrite (match_not_none v0 _ _ Hv) in HE. rewrite (match_not_none v0 _ _ Hv) in HS.
+  apply andb_prop in HS. destruct HS as [HV HO].
+  unfold conv_out in HE. unfold offset_okb in HO.
+  destruct (isa s tn T_ANNOTATION && (String.eqb (fd_xname fd) "begin" || String.eqb (fd_xname fd) "end")) eqn:FL.
+  - (* an offset of an annotation *)
+    destruct (fkind_of s fd) as [k| |k| | |] eqn:K; try discriminate. destruct k; try discriminate.
+    destruct v0 as [|z| | | | | |]; try discriminate.
+    destruct (slot f "sofa") as [| | | | | | |vn] eqn:SS; try discriminate.
+    destruct (sofa_of_view c vn) as [so|] eqn:SV; [|discriminate].
+    pose proof (HC vn so SS SV) as CV.
+    unfold kind_agreeb in HA. rewrite K in HA. apply andb_prop in HA. destruct HA as [HI HA]. apply eqb_prop in HI.
+    destruct (wbranch s fd) eqn:W; try discriminate. cbn [is_coll_wkind] in HI.
+    cbn [bind enc_value] in HE.
+    unfold dec_feature', canon_val, norm_feat. rewrite K, HI, FL. cbn [cv bind snd].
+    destruct (s_text so) as [t|] eqn:ST.
+    + injection HE as <-. rewrite attr_of_attr, dec_prim_int. cbn [bind]. rewrite CV.
+      rewrite ext2py_py2ext by lia. reflexivity.
+    + injection HE as <-. rewrite attr_of_attr, dec_prim_int. cbn [bind]. rewrite CV. reflexivity.
+  - cbn [bind] in HE. rewrite dec_flag by exact FL.
+    pose proof (enc_dec_value fd v0 ct conv HA Hv HV HE) as G. unfold goal_val in G. rewrite G.
+    destruct (canon_val s c fd v0); reflexivity.
+Qed.
+End Val.
+End Flt.
